@@ -129,6 +129,12 @@ def c_function(P):
     st.fields["returns"] = opt(P, "stub_returns", lambda: Opaque("stub_returns", z3.Int("stub_returns_id")))
     doc_calls = []
     P.opaque_hooks[MG + "_merge_stubs_docstring"] = lambda P_, a, k: doc_calls.append(a)
+    # the visitor attaches the overloads of a stub that also holds the implementation signature to that stub function
+    stub_has_overloads = z3.Bool("stub_function_has_overloads")
+    stub_overloads = [Opaque("stub_overload")]
+    rt_overloads = None
+    st.fields["overloads"] = stub_overloads if P.branch(stub_has_overloads) else (None if P.branch(z3.Bool("stub_overloads_none")) else [])
+    fn.fields["overloads"] = rt_overloads
     i0 = z3.Int("param_index")
     P.assume(z3.And(i0 >= 0, i0 < zint(sp.len)))
     P.loop_specs[(MG + "_merge_function_stubs", 0)] = dict(mode="generic", index=i0, may_write=("annotation",))
@@ -137,6 +143,8 @@ def c_function(P):
     if kind != "ok":
         return
     P.prove("returns_taken_from_stub", fn.fields["returns"] is st.fields["returns"])
+    P.prove("overload_list_of_the_stub_function_is_taken_when_it_has_one", z3.Implies(stub_has_overloads, fn.fields["overloads"] is stub_overloads))
+    P.prove("runtime_overloads_kept_when_the_stub_has_none", z3.Implies(z3.Not(stub_has_overloads), fn.fields["overloads"] is rt_overloads))
     P.prove("docstring_merged_once", len(doc_calls) == 1 and doc_calls[0][0] is fn and doc_calls[0][1] is st)
     pname = namef(i0)
     for key, (zk, rp) in rt_params.items():
@@ -190,7 +198,8 @@ def c_overloads(P):
     nonempty = z3.Bool("overloads_non_empty")
     ovl = [Opaque("overload")] if P.branch(nonempty) else []
     stubs.fields["overloads"] = {models._SymKey(name): ovl}
-    target = H.obj("target_fn", ["Function"])
+    # the runtime member of that name: a function, or an import of one (assigning to an alias goes through its final target, which may not resolve)
+    target = H.obj("target_fn", ["Function", "Alias"])
     has = z3.Bool("runtime_has_function")
 
     def get_member(P_, a, k):
@@ -203,8 +212,9 @@ def c_overloads(P):
     P.prove("never_raises", kind == "ok", exc=(P.resolve_cls(res) if kind == "raise" else ""))
     if kind != "ok":
         return
-    P.prove("overloads_attached_to_runtime_function", z3.Implies(z3.And(nonempty, has), target.fields["overloads"] is ovl))
-    P.prove("empty_overload_list_not_attached", z3.Implies(z3.Not(nonempty), target.fields["overloads"] is None))
+    if P.resolve_cls(target) == "Function":
+        P.prove("overloads_attached_to_runtime_function", z3.Implies(z3.And(nonempty, has), target.fields["overloads"] is ovl))
+        P.prove("empty_overload_list_not_attached", z3.Implies(z3.Not(nonempty), target.fields["overloads"] is None))
     P.prove("stub_side_entry_consumed", len(stubs.fields["overloads"]) == 0)
     P.cover("overloads")
 
